@@ -5,7 +5,7 @@
   (array.len (local.get $str))
 )
 (func $__$strGet (export "__strGet") (param $str (ref $_Str)) (param $idx i32) (result i32)
-  (array.get_s $_Str (local.get $str) (local.get $idx))
+  (array.get_u $_Str (local.get $str) (local.get $idx))
 )
 (func $__Str$eq (param $a (ref $_Str)) (param $b (ref $_Str)) (result i32)
   (local $len i32) (local $i i32)
